@@ -69,9 +69,9 @@ var (
 		`call does_not_exist;`,
 	}
 	c04Syntax = []string{
-		"set req.http.X-S = \"1\"",       // missing semicolon (when followed by })
-		"set req.http.X-S = ;",           // missing expression
-		"if (req.http.X-S {  }",          // unbalanced paren
+		"set req.http.X-S = \"1\"",           // missing semicolon (when followed by })
+		"set req.http.X-S = ;",               // missing expression
+		"if (req.http.X-S {  }",              // unbalanced paren
 		"set req.http.X-S = \"unterminated;", // unterminated string
 		"@@ nonsense;",
 		"}",
@@ -89,12 +89,12 @@ var (
 
 // c04LineRule: the rule of the diagnostic a pool line produces (used to aim overrides).
 var c04LineRule = map[string]string{
-	`if (req.http.X-Never) { error 700; }`: "error-statement/code",
-	`set req.http.X-G = re.group.1;`:       "deprecated",
-	`declare local var.unused%d STRING;`:   "unused/variable",
-	`set req.http.X-E = std.strlen();`:     "function/arguments",
-	`set req.http.X-I = 10;`:               "operator/assignment",
-	`call does_not_exist;`:                 "call-statement/subroutine-notfound",
+	`if (req.http.X-Never) { error 700; }`:                      "error-statement/code",
+	`set req.http.X-G = re.group.1;`:                            "deprecated",
+	`declare local var.unused%d STRING;`:                        "unused/variable",
+	`set req.http.X-E = std.strlen();`:                          "function/arguments",
+	`set req.http.X-I = 10;`:                                    "operator/assignment",
+	`call does_not_exist;`:                                      "call-statement/subroutine-notfound",
 	`if (req.url ~ "\.(jpg|png)$") { set req.http.X-A = "1"; }`: "regex/url-extension",
 }
 
@@ -117,7 +117,8 @@ func genC04(t *rapid.T) any {
 					n++
 					l = fmt.Sprintf(l, n)
 				}
-				if ignoreable && rapid.IntRange(0, 5).Draw(t, "ignore") == 5 {
+				// (not in front of a declaration: its unused-variable warning is raised later, at the end of the subroutine)
+				if ignoreable && !strings.Contains(l, "declare local") && !strings.Contains(l, "} if (") && rapid.IntRange(0, 3).Draw(t, "ignore") == 3 {
 					out = append(out, indent+"// falco-ignore-next-line")
 					feat["ignore-comment"] = true
 				}
@@ -162,10 +163,10 @@ func genC04(t *rapid.T) any {
 		return rapid.SampledFrom(c04Syntax).Draw(t, "syntax")
 	}
 
-	snippet := rapid.IntRange(0, 99).Draw(t, "snippet") >= 85
+	snippet := rapid.IntRange(0, 99).Draw(t, "snippet") >= 78
 	syntaxMain := rapid.IntRange(0, 99).Draw(t, "syntaxmain") >= 90
 	// 0-2 includes, in file order: a broken module may be followed or preceded by a good one
-	incKinds := []string{"root-clean", "root-lines", "root-syntax", "stmt-clean", "stmt-lines", "stmt-syntax", "missing", "nested-syntax"}
+	incKinds := []string{"root-clean", "root-lines", "root-syntax", "stmt-clean", "stmt-lines", "stmt-syntax", "missing", "nested-syntax", "stmt-nested-clean", "stmt-nested-lines", "stmt-nested-syntax"}
 	var incs []string
 	switch rapid.IntRange(0, 9).Draw(t, "nincludes") {
 	case 0, 1, 2, 3:
@@ -201,6 +202,18 @@ func genC04(t *rapid.T) any {
 		case "stmt-syntax":
 			body = append(body, "  include \""+sm+"\";")
 			c.Files["inc/"+sm+".vcl"] = "set req.http.X-" + sm + " = \"1\";\n" + syntax("module") + "\n"
+		case "stmt-nested-clean", "stmt-nested-lines", "stmt-nested-syntax":
+			// a statement module that itself includes a statement module
+			body = append(body, "  include \""+sm+"\";")
+			c.Files["inc/"+sm+".vcl"] = "set req.http.X-" + sm + " = \"1\";\ninclude \"" + sm + "n\";\n"
+			switch inc {
+			case "stmt-nested-clean":
+				c.Files["inc/"+sm+"n.vcl"] = "set req.http.X-" + sm + "n = \"1\";\n"
+			case "stmt-nested-lines":
+				c.Files["inc/"+sm+"n.vcl"] = strings.Join(lines(sm+"n", ""), "\n") + "\n"
+			default:
+				c.Files["inc/"+sm+"n.vcl"] = "set req.http.X-" + sm + "n = \"1\";\n" + syntax("module") + "\n"
+			}
 		case "missing":
 			body = append(body, "  include \"nope\";")
 		case "root-clean":
@@ -230,6 +243,17 @@ func genC04(t *rapid.T) any {
 		if rapid.IntRange(0, 3).Draw(t, "scope") > 0 {
 			b.WriteString("// @scope: recv\n")
 			feat["snippet-with-scope"] = true
+		} else {
+			// Without @scope the statements are not linted at all; the one file-level error is reported at
+			// the first statement, and whether a directive on that statement covers it is not documented:
+			// no directives in such a main file
+			var kept []string
+			for _, l := range body {
+				if !strings.Contains(l, "falco-ignore-next-line") {
+					kept = append(kept, l)
+				}
+			}
+			body = kept
 		}
 		b.WriteString(strings.Join(body, "\n") + "\n")
 	} else {
@@ -275,14 +299,19 @@ func genC04(t *rapid.T) any {
 type c04Triple struct{ E, W, I int }
 
 type c04Ref struct {
-	syntax   string // non-empty: syntax error (file: message)
-	triple   c04Triple
-	changed  int // diagnostics whose effective severity differs from the original
-	original c04Triple
+	bogusFatal string // the linter reports a syntax error although every file of the case parses
+	ignored    int    // diagnostics removed by ignore comments (applied by the harness)
+	syntax     string // non-empty: syntax error (file: message)
+	triple     c04Triple
+	changed    int // diagnostics whose effective severity differs from the original
+	original   c04Triple
 }
 
 // c04Reference computes the reference verdict through the library.
-func c04Reference(dir string, files map[string]string, rules [][2]string) (ref c04Ref, infra error) {
+// The reference lints a copy of the case in which every ignore directive is replaced by an ordinary
+// comment, and removes the diagnostics of the covered lines itself (covered[file base name][line]),
+// so that it does not depend on the linter's handling of ignore comments.
+func c04Reference(dir string, files map[string]string, rules [][2]string, covered map[string]map[int]bool) (ref c04Ref, infra error) {
 	rs, err := resolver.NewFileResolvers(filepath.Join(dir, "main.vcl"), []string{filepath.Join(dir, "inc")})
 	if err != nil {
 		return ref, err
@@ -320,8 +349,8 @@ func c04Reference(dir string, files map[string]string, rules [][2]string) (ref c
 	lt := linter.New(&config.LinterConfig{IgnoreSubroutines: []string{"vcl_pipe"}})
 	lt.Lint(vcl, lcontext.New(lcontext.WithResolver(rs[0])))
 	if lt.FatalError != nil {
-		// cannot happen when the linter agrees with the direct parses above
-		ref.syntax = fmt.Sprintf("included module (reported by the linter only): %v", lt.FatalError.Error)
+		// every file of the case parses on its own: the linter found a syntax error that is not there
+		ref.bogusFatal = fmt.Sprintf("%v", lt.FatalError.Error)
 		return ref, nil
 	}
 	over := map[string]string{}
@@ -342,6 +371,10 @@ func c04Reference(dir string, files map[string]string, rules [][2]string) (ref c
 		}
 	}
 	for _, e := range lt.Errors {
+		if covered[filepath.Base(e.Token.File)][e.Token.Line] {
+			ref.ignored++
+			continue
+		}
 		orig := strings.ToUpper(string(e.Severity))
 		eff := orig
 		if v, ok := over[string(e.Rule)]; ok {
@@ -467,9 +500,45 @@ func checkC04(raw json.RawMessage) iso.Result {
 			return iso.Failf("INFRA: %v", err)
 		}
 	}
-	ref, ierr := c04Reference(dir, c.Files, c.Rules)
+	// stripped copy for the reference
+	rdir, err := os.MkdirTemp(base, "c04ref-")
+	if err != nil {
+		return iso.Failf("INFRA: cannot create scratch directory: %v", err)
+	}
+	defer os.RemoveAll(rdir)
+	if err := os.MkdirAll(filepath.Join(rdir, "inc"), 0o755); err != nil {
+		return iso.Failf("INFRA: %v", err)
+	}
+	covered := map[string]map[int]bool{}
+	strip := func(rel, data string) string {
+		ls := strings.Split(data, "\n")
+		for i, l := range ls {
+			if strings.Contains(l, "falco-ignore-next-line") {
+				ls[i] = strings.Replace(l, "falco-ignore-next-line", "an ordinary comment", 1)
+				if covered[filepath.Base(rel)] == nil {
+					covered[filepath.Base(rel)] = map[int]bool{}
+				}
+				covered[filepath.Base(rel)][i+2] = true // the directive stands on line i+1, it covers the statement on the next line
+			}
+		}
+		return strings.Join(ls, "\n")
+	}
+	stripped := map[string]string{}
+	if err := os.WriteFile(filepath.Join(rdir, "main.vcl"), []byte(strip("main.vcl", c.Main)), 0o644); err != nil {
+		return iso.Failf("INFRA: %v", err)
+	}
+	for rel, data := range c.Files {
+		stripped[rel] = strip(rel, data)
+		if err := os.WriteFile(filepath.Join(rdir, rel), []byte(stripped[rel]), 0o644); err != nil {
+			return iso.Failf("INFRA: %v", err)
+		}
+	}
+	ref, ierr := c04Reference(rdir, stripped, c.Rules, covered)
 	if ierr != nil {
 		return iso.Failf("INFRA: reference: %v", ierr)
+	}
+	if ref.ignored > 0 {
+		col.Label("ignore-comment-effective")
 	}
 	col.Label(c.Feat...)
 	wantFail := ref.syntax != "" || ref.triple.E > 0
@@ -488,6 +557,10 @@ func checkC04(raw json.RawMessage) iso.Result {
 			fmt.Fprintf(&b, "--- .falco.yml ---\n%s", yml)
 		}
 		return b.String()
+	}
+	if ref.bogusFatal != "" {
+		col.Failf("the linter reports a syntax error in an included module although every file of the case parses on its own: %s\n%s", ref.bogusFatal, describe())
+		return col.Done()
 	}
 	refText := fmt.Sprintf("reference: syntax error=%q, effective (errors,warnings,infos)=%v (before overrides %v)", ref.syntax, ref.triple, ref.original)
 	var first *c04Run
